@@ -163,6 +163,35 @@ func execC07Periodic(c *child.Ctx, k crashCase, cj []byte) {
 	c.Count("stream_messages", nmsgs)
 }
 
+// c07HasDecoder: does full decoding of a frame of this type do anything of its own?
+func c07HasDecoder(t int, r *ref.SplitMix64) (has bool) {
+	defer func() {
+		if rr := recover(); rr != nil {
+			has = true // it certainly runs code of its own
+		}
+	}()
+	for i := 0; i < 4; i++ {
+		body := r.Bytes(20 + 20*i)
+		body[0], body[1] = byte(t>>4), byte(t<<4)|body[1]&0x0f
+		h := handler.New(fixedStart, slog.LevelInfo)
+		m, _ := h.GetMessage(ref.Frame(body))
+		if m == nil {
+			continue
+		}
+		before := m.ErrorMessage
+		handler.Analyse(m)
+		if m.ErrorMessage != before {
+			return true
+		}
+		switch m.Readable.(type) {
+		case nil, string:
+		default:
+			return true
+		}
+	}
+	return false
+}
+
 var c07Types = []int{1005, 1006, 1074, 1077, 1084, 1087, 1094, 1097, 1104, 1107, 1114, 1117, 1124, 1127, 1134, 1137, 1230, 1, 4095}
 
 // shapedPayload builds a payload of the given type and length whose bits follow
@@ -444,6 +473,59 @@ func monC07(c *child.Ctx, replay json.RawMessage) {
 				}()
 			}
 			c.EvalN(1)
+			// does this type have a decoder of its own (full decoding yields a structure,
+			// or leaves an error text)?  Then it gets the treatment of the known types:
+			// every short length with many shapes, and every body of small counters
+			known := false
+			for _, kt := range c07Types {
+				if kt == t {
+					known = true
+				}
+			}
+			if !known && c07HasDecoder(t, r) {
+				c.Count("types_found_to_have_a_decoder", 1)
+				try := func(body []byte, note string) {
+					body[0], body[1] = byte(t>>4), byte(t<<4)|body[1]&0x0f
+					frame := ref.Frame(body)
+					k := crashCase{Frame: hexs(frame), Note: note}
+					cj, _ := json.Marshal(k)
+					for _, lvl := range []slog.Level{slog.LevelInfo, slog.LevelDebug} {
+						func() {
+							defer func() {
+								if rr := recover(); rr != nil {
+									c.Violate("panic", fmt.Sprintf("panic while decoding/displaying a %d-byte frame of type %d (a type with a decoder of its own) at level %v: %v", len(frame), t, lvl, rr), cj)
+								}
+							}()
+							h := handler.New(fixedStart, lvl)
+							if m, _ := h.GetMessage(frame); m != nil {
+								exerciseMessage(m)
+							}
+						}()
+					}
+				}
+				for n := 2; n <= 120 && c.NViolations() == 0; n++ {
+					for shape := 0; shape < 24; shape++ {
+						try(shapedPayload(r, t, n, shape%6), "decodable type, every short length")
+					}
+				}
+				// bodies of 3..7 bytes whose bytes after the type are all 0..7 (counters and
+				// lengths of what follows), exhaustively
+				for n := 3; n <= 7 && c.NViolations() == 0; n++ {
+					total := 1
+					for x := 0; x < n-2; x++ {
+						total *= 8
+					}
+					for v := 0; v < total; v++ {
+						body := make([]byte, n)
+						w := v
+						for x := 2; x < n; x++ {
+							body[x] = byte(w % 8)
+							w /= 8
+						}
+						try(body, "decodable type, small counters")
+					}
+				}
+			}
 		}
 		c.Count("all_types_swept_with_short_bodies", 1)
 	}
